@@ -411,11 +411,13 @@ func (i *interpreter) encodeFixed(t types.Type, v value, out *[]value, little bo
 
 // ---------- math/big ----------
 
-// bigVal is the payload of a math/big.Int: concrete (c) or symbolic Int term (t).
-// For symbolic values nonneg and maxBits give a sound bound 0 <= v < 2^maxBits when nonneg.
+// bigVal is the payload of a math/big.Int: concrete (c), a symbolic unsigned bit-vector (bv, the
+// value is bv2nat(bv)) or a symbolic Int term (t). For symbolic values nonneg and maxBits give a
+// sound bound 0 <= v < 2^maxBits when nonneg.
 type bigVal struct {
 	c       *big.Int
 	t       *Term
+	bv      *Term
 	nonneg  bool
 	maxBits int
 }
@@ -444,15 +446,59 @@ func setBig(v value, b *bigVal) value {
 
 func concBig(c *big.Int) *bigVal { return &bigVal{c: c} }
 
-func (i *interpreter) bigTerm(b *bigVal) *Term {
-	if b.t != nil {
-		return b.t
+func (b *bigVal) isConc() bool { return b.c != nil }
+
+func (i *interpreter) bvBig(t *Term) *bigVal {
+	if t.isConst() {
+		return concBig(new(big.Int).Set(t.constBig()))
 	}
-	return i.px.tc.IntConst(b.c)
+	return &bigVal{bv: t, nonneg: true, maxBits: t.sort.W}
+}
+
+func (i *interpreter) bigTerm(b *bigVal) *Term {
+	if b.c != nil {
+		return i.px.tc.IntConst(b.c)
+	}
+	if b.t == nil {
+		b.t = i.px.tc.Bv2Nat(b.bv)
+	}
+	return b.t
+}
+
+// bigBV returns the value as an unsigned bit-vector of width w, or nil when that is not possible.
+func (i *interpreter) bigBV(b *bigVal, w int) *Term {
+	tc := i.px.tc
+	if b.c != nil {
+		if b.c.Sign() < 0 || b.c.BitLen() > w {
+			return nil
+		}
+		return tc.BVBig(w, b.c)
+	}
+	if b.bv != nil && b.bv.sort.W <= w {
+		return tc.Zext(b.bv, w)
+	}
+	return nil
+}
+
+// bvWidth: width needed to hold the value as an unsigned bit-vector (0: not representable).
+func (b *bigVal) bvWidth() int {
+	if b.c != nil {
+		if b.c.Sign() < 0 {
+			return 0
+		}
+		if b.c.BitLen() == 0 {
+			return 1
+		}
+		return b.c.BitLen()
+	}
+	if b.bv != nil {
+		return b.bv.sort.W
+	}
+	return 0
 }
 
 func (b *bigVal) bounds() (bool, int) {
-	if b.t == nil {
+	if b.c != nil {
 		return b.c.Sign() >= 0, b.c.BitLen()
 	}
 	return b.nonneg, b.maxBits
@@ -466,11 +512,29 @@ func (i *interpreter) newBigObj(b *bigVal) value {
 	return &cell
 }
 
+func max2(a, b int) int {
+	if a > b {
+		return a
+	}
+	return b
+}
+
 func (i *interpreter) bigCmp(x, y *bigVal) value {
-	if x.t == nil && y.t == nil {
+	if x.c != nil && y.c != nil {
 		return x.c.Cmp(y.c)
 	}
 	tc := i.px.tc
+	if wx, wy := x.bvWidth(), y.bvWidth(); wx > 0 && wy > 0 {
+		w := max2(wx, wy)
+		a, b := i.bigBV(x, w), i.bigBV(y, w)
+		if i.px.branch(tc.bvcmp(OBvUlt, a, b)) {
+			return -1
+		}
+		if i.px.branch(tc.Eq(a, b)) {
+			return 0
+		}
+		return 1
+	}
 	a, b := i.bigTerm(x), i.bigTerm(y)
 	if i.px.branch(tc.intcmp(OIntLt, a, b)) {
 		return -1
@@ -485,7 +549,7 @@ func init() {
 	bin := func(name string, conc func(z, x, y *big.Int) *big.Int, symf func(i *interpreter, x, y *bigVal) *bigVal) {
 		reg("(*math/big.Int)."+name, func(fr *frame, args []value) value {
 			x, y := bigOf(args[1]), bigOf(args[2])
-			if x.t == nil && y.t == nil {
+			if x.c != nil && y.c != nil {
 				if (name == "Div" || name == "Quo" || name == "Mod" || name == "Rem") && y.c.Sign() == 0 {
 					panic(targetPanic{iface{types.Typ[types.String], "division by zero"}})
 				}
@@ -495,33 +559,46 @@ func init() {
 		})
 	}
 	bin("Add", (*big.Int).Add, func(i *interpreter, x, y *bigVal) *bigVal {
+		tc := i.px.tc
+		if wx, wy := x.bvWidth(), y.bvWidth(); wx > 0 && wy > 0 {
+			w := max2(wx, wy) + 1
+			return i.bvBig(tc.BvAdd(i.bigBV(x, w), i.bigBV(y, w)))
+		}
 		xn, xb := x.bounds()
 		yn, yb := y.bounds()
-		mb := xb
-		if yb > mb {
-			mb = yb
-		}
-		return &bigVal{t: i.px.tc.intbin(OIntAdd, i.bigTerm(x), i.bigTerm(y)), nonneg: xn && yn, maxBits: mb + 1}
+		return &bigVal{t: tc.intbin(OIntAdd, i.bigTerm(x), i.bigTerm(y)), nonneg: xn && yn, maxBits: max2(xb, yb) + 1}
 	})
 	bin("Sub", (*big.Int).Sub, func(i *interpreter, x, y *bigVal) *bigVal {
 		_, xb := x.bounds()
 		_, yb := y.bounds()
-		mb := xb
-		if yb > mb {
-			mb = yb
-		}
-		return &bigVal{t: i.px.tc.intbin(OIntSub, i.bigTerm(x), i.bigTerm(y)), nonneg: false, maxBits: mb + 1}
+		return &bigVal{t: i.px.tc.intbin(OIntSub, i.bigTerm(x), i.bigTerm(y)), nonneg: false, maxBits: max2(xb, yb) + 1}
 	})
 	bin("Mul", (*big.Int).Mul, func(i *interpreter, x, y *bigVal) *bigVal {
+		tc := i.px.tc
+		if wx, wy := x.bvWidth(), y.bvWidth(); wx > 0 && wy > 0 {
+			w := wx + wy
+			return i.bvBig(tc.BvMul(i.bigBV(x, w), i.bigBV(y, w)))
+		}
 		xn, xb := x.bounds()
 		yn, yb := y.bounds()
-		return &bigVal{t: i.px.tc.intbin(OIntMul, i.bigTerm(x), i.bigTerm(y)), nonneg: xn && yn, maxBits: xb + yb}
+		return &bigVal{t: tc.intbin(OIntMul, i.bigTerm(x), i.bigTerm(y)), nonneg: xn && yn, maxBits: xb + yb}
 	})
 	divLike := func(name string, euclid bool, wantMod bool) {
 		bin(name, map[string]func(z, x, y *big.Int) *big.Int{
 			"Div": (*big.Int).Div, "Quo": (*big.Int).Quo, "Mod": (*big.Int).Mod, "Rem": (*big.Int).Rem}[name],
 			func(i *interpreter, x, y *bigVal) *bigVal {
 				tc := i.px.tc
+				if wx, wy := x.bvWidth(), y.bvWidth(); wx > 0 && wy > 0 {
+					w := max2(wx, wy)
+					a, b := i.bigBV(x, w), i.bigBV(y, w)
+					if i.px.branch(tc.Eq(b, tc.BV(w, 0))) {
+						panic(targetPanic{iface{types.Typ[types.String], "division by zero"}})
+					}
+					if wantMod {
+						return i.bvBig(tc.bvbin(OBvUrem, a, b))
+					}
+					return i.bvBig(tc.bvbin(OBvUdiv, a, b))
+				}
 				a, b := i.bigTerm(x), i.bigTerm(y)
 				if i.px.branch(tc.Eq(b, tc.IntConst(big.NewInt(0)))) {
 					panic(targetPanic{iface{types.Typ[types.String], "division by zero"}})
@@ -545,22 +622,24 @@ func init() {
 
 	bitop := func(name string, conc func(z, x, y *big.Int) *big.Int, op Op) {
 		bin(name, conc, func(i *interpreter, x, y *bigVal) *bigVal {
+			tc := i.px.tc
+			if wx, wy := x.bvWidth(), y.bvWidth(); wx > 0 && wy > 0 {
+				w := max2(wx, wy)
+				return i.bvBig(tc.bvbin(op, i.bigBV(x, w), i.bigBV(y, w)))
+			}
 			xn, xb := x.bounds()
 			yn, yb := y.bounds()
-			if !xn || !yn {
-				i.px.abort(stUnsupported, "big.Int.%s with possibly negative symbolic operand", name)
+			zero := tc.IntConst(big.NewInt(0))
+			if !xn && !i.px.branch(tc.intcmp(OIntLe, zero, i.bigTerm(x))) {
+				i.px.abort(stUnsupported, "big.Int.%s with negative symbolic operand", name)
 			}
-			w := xb
-			if yb > w {
-				w = yb
+			if !yn && !i.px.branch(tc.intcmp(OIntLe, zero, i.bigTerm(y))) {
+				i.px.abort(stUnsupported, "big.Int.%s with negative symbolic operand", name)
 			}
-			if w == 0 {
-				w = 1
-			}
-			tc := i.px.tc
+			w := max2(max2(xb, yb), 1)
 			a := tc.Int2Bv(i.bigTerm(x), w)
 			b := tc.Int2Bv(i.bigTerm(y), w)
-			return &bigVal{t: tc.Bv2Nat(tc.bvbin(op, a, b)), nonneg: true, maxBits: w}
+			return i.bvBig(tc.bvbin(op, a, b))
 		})
 	}
 	bitop("Xor", (*big.Int).Xor, OBvXor)
@@ -574,6 +653,13 @@ func init() {
 		i := fr.i
 		if s, ok := args[1].(sym); ok {
 			tc := i.px.tc
+			if top := tc.Extract(s.t, 63, 63); top.isConst() && top.c == 0 {
+				return setBig(args[0], i.bvBig(tc.Extract(s.t, 62, 0)))
+			}
+			// decide the sign on this path so that the result stays a bit-vector
+			if !i.px.branch(tc.bvcmp(OBvSlt, s.t, tc.BV(64, 0))) {
+				return setBig(args[0], i.bvBig(tc.Extract(s.t, 62, 0)))
+			}
 			u := tc.Bv2Nat(s.t)
 			neg := tc.bvcmp(OBvSlt, s.t, tc.BV(64, 0))
 			two64 := tc.IntConst(new(big.Int).Lsh(big.NewInt(1), 64))
@@ -583,7 +669,7 @@ func init() {
 	})
 	reg("(*math/big.Int).SetUint64", func(fr *frame, args []value) value {
 		if s, ok := args[1].(sym); ok {
-			return setBig(args[0], &bigVal{t: fr.i.px.tc.Bv2Nat(s.t), nonneg: true, maxBits: 64})
+			return setBig(args[0], fr.i.bvBig(s.t))
 		}
 		return setBig(args[0], concBig(new(big.Int).SetUint64(uint64(asInt64(args[1])))))
 	})
@@ -610,16 +696,34 @@ func init() {
 				break
 			}
 		}
-		t := i.bytesTerm(b)
-		return setBig(args[0], &bigVal{t: i.px.tc.Bv2Nat(t), nonneg: true, maxBits: 8 * len(b)})
+		return setBig(args[0], i.bvBig(i.bytesTerm(b)))
 	})
 	reg("(*math/big.Int).Bytes", func(fr *frame, args []value) value {
 		i := fr.i
 		x := bigOf(args[0])
-		if x.t == nil {
+		if x.c != nil {
 			return bytesToValues(x.c.Bytes())
 		}
 		tc := i.px.tc
+		if x.bv != nil {
+			w := x.bv.sort.W
+			nb := (w + 7) / 8
+			full := tc.Zext(x.bv, 8*nb)
+			// first non-zero byte from the top
+			start := nb
+			for k := 0; k < nb; k++ {
+				byteK := tc.Extract(full, 8*(nb-k)-1, 8*(nb-k)-8)
+				if i.px.branch(tc.Not(tc.Eq(byteK, tc.BV(8, 0)))) {
+					start = k
+					break
+				}
+			}
+			out := make([]value, nb-start)
+			for k := start; k < nb; k++ {
+				out[k-start] = mkSym(types.Uint8, tc.Extract(full, 8*(nb-k)-1, 8*(nb-k)-8))
+			}
+			return out
+		}
 		_, mb := x.bounds()
 		maxBytes := (mb + 7) / 8
 		abs := x.t
@@ -627,7 +731,6 @@ func init() {
 			zero := tc.IntConst(big.NewInt(0))
 			abs = tc.Ite(tc.intcmp(OIntLt, x.t, zero), tc.intbin(OIntSub, zero, x.t), x.t)
 		}
-		// find byte length n: 256^(n-1) <= abs < 256^n
 		n := 0
 		for k := maxBytes; k >= 1; k-- {
 			lim := tc.IntConst(new(big.Int).Lsh(big.NewInt(1), uint(8*(k-1))))
@@ -650,17 +753,17 @@ func init() {
 	})
 	reg("(*math/big.Int).CmpAbs", func(fr *frame, args []value) value {
 		x, y := bigOf(args[0]), bigOf(args[1])
-		if x.t == nil && y.t == nil {
+		if x.c != nil && y.c != nil {
 			return x.c.CmpAbs(y.c)
 		}
-		if !x.nonneg && x.t != nil || !y.nonneg && y.t != nil {
+		if (x.c == nil && !x.nonneg) || (y.c == nil && !y.nonneg) {
 			fr.i.px.abort(stUnsupported, "big.Int.CmpAbs on possibly negative symbolic")
 		}
 		return fr.i.bigCmp(x, y)
 	})
 	reg("(*math/big.Int).Sign", func(fr *frame, args []value) value {
 		x := bigOf(args[0])
-		if x.t == nil {
+		if x.c != nil {
 			return x.c.Sign()
 		}
 		return fr.i.bigCmp(x, concBig(new(big.Int)))
@@ -683,7 +786,7 @@ func init() {
 			return "<nil>"
 		}
 		x := bigOf(args[0])
-		if x.t != nil {
+		if x.c == nil {
 			return fr.i.opaque()
 		}
 		return x.c.Text(int(asInt64(args[1])))
@@ -694,35 +797,45 @@ func init() {
 			return "<nil>"
 		}
 		x := bigOf(args[0])
-		if x.t != nil {
+		if x.c == nil {
 			return fr.i.opaque()
 		}
 		return x.c.String()
 	})
 	reg("(*math/big.Int).BitLen", func(fr *frame, args []value) value {
 		x := bigOf(args[0])
-		if x.t != nil {
+		if x.c == nil {
 			fr.i.px.abort(stUnsupported, "big.Int.BitLen symbolic")
 		}
 		return x.c.BitLen()
 	})
+	low64 := func(i *interpreter, x *bigVal) *Term {
+		tc := i.px.tc
+		if x.bv != nil {
+			if x.bv.sort.W >= 64 {
+				return tc.Extract(x.bv, 63, 0)
+			}
+			return tc.Zext(x.bv, 64)
+		}
+		return tc.Int2Bv(x.t, 64)
+	}
 	reg("(*math/big.Int).Int64", func(fr *frame, args []value) value {
 		x := bigOf(args[0])
-		if x.t != nil {
-			return mkSym(types.Int64, fr.i.px.tc.Int2Bv(x.t, 64))
+		if x.c == nil {
+			return mkSym(types.Int64, low64(fr.i, x))
 		}
 		return x.c.Int64()
 	})
 	reg("(*math/big.Int).Uint64", func(fr *frame, args []value) value {
 		x := bigOf(args[0])
-		if x.t != nil {
-			return mkSym(types.Uint64, fr.i.px.tc.Int2Bv(x.t, 64))
+		if x.c == nil {
+			return mkSym(types.Uint64, low64(fr.i, x))
 		}
 		return x.c.Uint64()
 	})
 	reg("(*math/big.Int).IsInt64", func(fr *frame, args []value) value {
 		x := bigOf(args[0])
-		if x.t != nil {
+		if x.c == nil {
 			fr.i.px.abort(stUnsupported, "big.Int.IsInt64 symbolic")
 		}
 		return x.c.IsInt64()
@@ -731,24 +844,38 @@ func init() {
 		i := fr.i
 		x := bigOf(args[1])
 		n := uint(i.concInt(args[2], "big.Lsh count"))
-		if x.t == nil {
+		if x.c != nil {
 			return setBig(args[0], concBig(new(big.Int).Lsh(x.c, n)))
 		}
-		f := i.px.tc.IntConst(new(big.Int).Lsh(big.NewInt(1), n))
-		return setBig(args[0], &bigVal{t: i.px.tc.intbin(OIntMul, x.t, f), nonneg: x.nonneg, maxBits: x.maxBits + int(n)})
+		tc := i.px.tc
+		if x.bv != nil {
+			if n == 0 {
+				return setBig(args[0], x)
+			}
+			return setBig(args[0], i.bvBig(tc.Concat(x.bv, tc.BV(int(n), 0))))
+		}
+		f := tc.IntConst(new(big.Int).Lsh(big.NewInt(1), n))
+		return setBig(args[0], &bigVal{t: tc.intbin(OIntMul, x.t, f), nonneg: x.nonneg, maxBits: x.maxBits + int(n)})
 	})
 	reg("(*math/big.Int).Rsh", func(fr *frame, args []value) value {
 		i := fr.i
 		x := bigOf(args[1])
 		n := uint(i.concInt(args[2], "big.Rsh count"))
-		if x.t == nil {
+		if x.c != nil {
 			return setBig(args[0], concBig(new(big.Int).Rsh(x.c, n)))
 		}
-		f := i.px.tc.IntConst(new(big.Int).Lsh(big.NewInt(1), n))
+		tc := i.px.tc
+		if x.bv != nil {
+			if int(n) >= x.bv.sort.W {
+				return setBig(args[0], concBig(new(big.Int)))
+			}
+			return setBig(args[0], i.bvBig(tc.Extract(x.bv, x.bv.sort.W-1, int(n))))
+		}
+		f := tc.IntConst(new(big.Int).Lsh(big.NewInt(1), n))
 		mb := x.maxBits - int(n)
 		if mb < 0 {
 			mb = 0
 		}
-		return setBig(args[0], &bigVal{t: i.px.tc.intbin(OIntDiv, x.t, f), nonneg: x.nonneg, maxBits: mb})
+		return setBig(args[0], &bigVal{t: tc.intbin(OIntDiv, x.t, f), nonneg: x.nonneg, maxBits: mb})
 	})
 }
